@@ -126,7 +126,7 @@ def fuzz_text(prop, exe):
     env = dict(ENV)
     env["CARGO_TARGET_DIR"] = os.path.join(TARGET, "fuzz")
     env["ASAN_OPTIONS"] = "detect_leaks=0:detect_odr_violation=0"
-    runs = {"C12": 20000000, "C13": 40000, "C14": 3000000}[prop]
+    runs = {"C12": 20000000, "C13": 40000, "C14": 1500000}[prop]
     cmd = ["cargo", "+nightly", "fuzz", "run", "--fuzz-dir", fdir, target, corp, "--", "-runs=%d" % runs, "-seed=%d" % (seed() + 1), "-max_len=96", "-len_control=0", "-artifact_prefix=" + art, "-print_final_stats=1", "-detect_leaks=0"]
     t = time.time()
     code, out = run(cmd, cwd=ROOT, env=env, capture=True, timeout=4 * 3600)
